@@ -126,6 +126,17 @@ impl Compiler {
                 _ => None,
             };
 
+            // `var x;` of an already hoisted variable declares nothing new and assigns
+            // nothing: the variable keeps its value
+            if is_var
+                && declarator.init.is_none()
+                && inferred_name
+                    .as_ref()
+                    .is_some_and(|name| self.hoisted_vars.contains(name))
+            {
+                continue;
+            }
+
             // Compile initializer (or undefined)
             let init_reg = self.builder.alloc_register()?;
             if let Some(init) = &declarator.init {
